@@ -451,16 +451,22 @@ package keeper
 //@ let id0 := old(k.GetValidatorSetUpdateId(ctx))
 //@ loop 1 invariant [id] k.GetValidatorSetUpdateId(ctx) == id0 && valUpdateID == id0
 //@ loop 1 invariant [phases] forall c string :: k.GetConsumerPhase(ctx, c) == old(k.GetConsumerPhase(ctx, c))
-//@ loop 1 invariant [launched-only] forall c string, p types.ProviderConsAddress :: old(k.GetConsumerPhase(ctx, c)) != providertypes.CONSUMER_PHASE_LAUNCHED ==> S[providertypes.PendingVSCsKey(c)] == old(S[providertypes.PendingVSCsKey(c)]) && S[providertypes.SlashAcksKey(c)] == old(S[providertypes.SlashAcksKey(c)]) && S[providertypes.OptedInKey(c, p)] == old(S[providertypes.OptedInKey(c, p)]) && S[providertypes.ConsumerValidatorKey(c, p.ToSdkConsAddr())] == old(S[providertypes.ConsumerValidatorKey(c, p.ToSdkConsAddr())]) && S[providertypes.MinimumPowerInTopNKey(c)] == old(S[providertypes.MinimumPowerInTopNKey(c)])
+//@ loop 1 invariant [lo-pending] forall c string, p types.ProviderConsAddress :: old(k.GetConsumerPhase(ctx, c)) != providertypes.CONSUMER_PHASE_LAUNCHED ==> S[providertypes.PendingVSCsKey(c)] == old(S[providertypes.PendingVSCsKey(c)])
+//@ loop 1 invariant [lo-acks] forall c string, p types.ProviderConsAddress :: old(k.GetConsumerPhase(ctx, c)) != providertypes.CONSUMER_PHASE_LAUNCHED ==> S[providertypes.SlashAcksKey(c)] == old(S[providertypes.SlashAcksKey(c)])
+//@ loop 1 invariant [lo-optin] forall c string, p types.ProviderConsAddress :: old(k.GetConsumerPhase(ctx, c)) != providertypes.CONSUMER_PHASE_LAUNCHED ==> S[providertypes.OptedInKey(c, p)] == old(S[providertypes.OptedInKey(c, p)])
+//@ loop 1 invariant [lo-valset] forall c string, p types.ProviderConsAddress :: old(k.GetConsumerPhase(ctx, c)) != providertypes.CONSUMER_PHASE_LAUNCHED ==> S[providertypes.ConsumerValidatorKey(c, p.ToSdkConsAddr())] == old(S[providertypes.ConsumerValidatorKey(c, p.ToSdkConsAddr())])
+//@ loop 1 invariant [lo-minpower] (stretch) forall c string, p types.ProviderConsAddress :: old(k.GetConsumerPhase(ctx, c)) != providertypes.CONSUMER_PHASE_LAUNCHED ==> S[providertypes.MinimumPowerInTopNKey(c)] == old(S[providertypes.MinimumPowerInTopNKey(c)])
 //@ loop 1 invariant [fifo] forall c string :: len(k.GetPendingVSCPackets(ctx, c)) >= len(old(k.GetPendingVSCPackets(ctx, c))) && (forall j int :: 0 <= j && j < len(old(k.GetPendingVSCPackets(ctx, c))) ==> k.GetPendingVSCPackets(ctx, c)[j] == old(k.GetPendingVSCPackets(ctx, c))[j])
-//@ loop 1 invariant [stamp] forall c string, j int :: len(old(k.GetPendingVSCPackets(ctx, c))) <= j && j < len(k.GetPendingVSCPackets(ctx, c)) ==> k.GetPendingVSCPackets(ctx, c)[j].ValsetUpdateId == id0
-//@ loop 1 invariant [at-most-one] forall c string :: len(k.GetPendingVSCPackets(ctx, c)) <= len(old(k.GetPendingVSCPackets(ctx, c))) + 1
-//@ loop 1 invariant [acks-kept-or-sent] forall c string :: S[providertypes.SlashAcksKey(c)] == old(S[providertypes.SlashAcksKey(c)]) || (S[providertypes.SlashAcksKey(c)] == bnil && len(k.GetPendingVSCPackets(ctx, c)) == len(old(k.GetPendingVSCPackets(ctx, c))) + 1 && k.GetPendingVSCPackets(ctx, c)[len(old(k.GetPendingVSCPackets(ctx, c)))].SlashAcks == old(k.GetSlashAcks(ctx, c)))
+//@ loop 1 invariant [stamp] (stretch) forall c string, j int :: len(old(k.GetPendingVSCPackets(ctx, c))) <= j && j < len(k.GetPendingVSCPackets(ctx, c)) ==> k.GetPendingVSCPackets(ctx, c)[j].ValsetUpdateId == id0
+//@ loop 1 invariant [acks-need-packet] forall c string :: S[providertypes.SlashAcksKey(c)] != old(S[providertypes.SlashAcksKey(c)]) ==> len(k.GetPendingVSCPackets(ctx, c)) > len(old(k.GetPendingVSCPackets(ctx, c)))
 //@ loop 1 invariant [deps] E == old(E) && X == old(X)
 //@ ensures [inc] result == nil ==> k.GetValidatorSetUpdateId(ctx) == id0 + 1
-//@ ensures [launched-only] forall c string, p types.ProviderConsAddress :: old(k.GetConsumerPhase(ctx, c)) != providertypes.CONSUMER_PHASE_LAUNCHED ==> S[providertypes.PendingVSCsKey(c)] == old(S[providertypes.PendingVSCsKey(c)]) && S[providertypes.SlashAcksKey(c)] == old(S[providertypes.SlashAcksKey(c)]) && S[providertypes.OptedInKey(c, p)] == old(S[providertypes.OptedInKey(c, p)]) && S[providertypes.ConsumerValidatorKey(c, p.ToSdkConsAddr())] == old(S[providertypes.ConsumerValidatorKey(c, p.ToSdkConsAddr())]) && S[providertypes.MinimumPowerInTopNKey(c)] == old(S[providertypes.MinimumPowerInTopNKey(c)])
+//@ ensures [lo-pending] forall c string, p types.ProviderConsAddress :: old(k.GetConsumerPhase(ctx, c)) != providertypes.CONSUMER_PHASE_LAUNCHED ==> S[providertypes.PendingVSCsKey(c)] == old(S[providertypes.PendingVSCsKey(c)])
+//@ ensures [lo-acks] forall c string, p types.ProviderConsAddress :: old(k.GetConsumerPhase(ctx, c)) != providertypes.CONSUMER_PHASE_LAUNCHED ==> S[providertypes.SlashAcksKey(c)] == old(S[providertypes.SlashAcksKey(c)])
+//@ ensures [lo-optin] forall c string, p types.ProviderConsAddress :: old(k.GetConsumerPhase(ctx, c)) != providertypes.CONSUMER_PHASE_LAUNCHED ==> S[providertypes.OptedInKey(c, p)] == old(S[providertypes.OptedInKey(c, p)])
+//@ ensures [lo-valset] forall c string, p types.ProviderConsAddress :: old(k.GetConsumerPhase(ctx, c)) != providertypes.CONSUMER_PHASE_LAUNCHED ==> S[providertypes.ConsumerValidatorKey(c, p.ToSdkConsAddr())] == old(S[providertypes.ConsumerValidatorKey(c, p.ToSdkConsAddr())])
+//@ ensures [lo-minpower] (stretch) forall c string, p types.ProviderConsAddress :: old(k.GetConsumerPhase(ctx, c)) != providertypes.CONSUMER_PHASE_LAUNCHED ==> S[providertypes.MinimumPowerInTopNKey(c)] == old(S[providertypes.MinimumPowerInTopNKey(c)])
 //@ ensures [fifo] forall c string :: len(k.GetPendingVSCPackets(ctx, c)) >= len(old(k.GetPendingVSCPackets(ctx, c))) && (forall j int :: 0 <= j && j < len(old(k.GetPendingVSCPackets(ctx, c))) ==> k.GetPendingVSCPackets(ctx, c)[j] == old(k.GetPendingVSCPackets(ctx, c))[j])
-//@ ensures [stamp] forall c string, j int :: len(old(k.GetPendingVSCPackets(ctx, c))) <= j && j < len(k.GetPendingVSCPackets(ctx, c)) ==> k.GetPendingVSCPackets(ctx, c)[j].ValsetUpdateId == id0
-//@ ensures [at-most-one] forall c string :: len(k.GetPendingVSCPackets(ctx, c)) <= len(old(k.GetPendingVSCPackets(ctx, c))) + 1
-//@ ensures [acks-kept-or-sent] forall c string :: S[providertypes.SlashAcksKey(c)] == old(S[providertypes.SlashAcksKey(c)]) || (S[providertypes.SlashAcksKey(c)] == bnil && len(k.GetPendingVSCPackets(ctx, c)) == len(old(k.GetPendingVSCPackets(ctx, c))) + 1 && k.GetPendingVSCPackets(ctx, c)[len(old(k.GetPendingVSCPackets(ctx, c)))].SlashAcks == old(k.GetSlashAcks(ctx, c)))
+//@ ensures [stamp] (stretch) forall c string, j int :: len(old(k.GetPendingVSCPackets(ctx, c))) <= j && j < len(k.GetPendingVSCPackets(ctx, c)) ==> k.GetPendingVSCPackets(ctx, c)[j].ValsetUpdateId == id0
+//@ ensures [acks-need-packet] forall c string :: S[providertypes.SlashAcksKey(c)] != old(S[providertypes.SlashAcksKey(c)]) ==> len(k.GetPendingVSCPackets(ctx, c)) > len(old(k.GetPendingVSCPackets(ctx, c)))
 //@ ensures [no-send] E == old(E) && X == old(X)
